@@ -6,6 +6,7 @@ import Ivg.Gen.Tie.Magic
 import Ivg.Gen.Tie.Mids
 import Ivg.Gen.Tie.MiscFields
 import Ivg.Gen.Tie.Code.DecNumbers
+import Ivg.Gen.Tie.Code.Decoder8
 import Ivg.Obligations
 /-!
 # C13 — metadata: what Reset receives, what is rejected, and metadata-only decoding
@@ -334,4 +335,11 @@ end Ivg.Props.C13
   Ivg.Gen.Tie.decodeCoordinate_model_eq,
   Ivg.Gen.Tie.decodeZeroToOne_code_tie,
   Ivg.Gen.Tie.decodeZeroToOne_model_eq,
-  Ivg.Gen.Tie.isNaNOrInfinity_code_tie]
+  Ivg.Gen.Tie.isNaNOrInfinity_code_tie,
+  -- regenerated code (translator) = model, for all inputs: the decoder from bytes to Destination calls (Tie/Code/Decoder*.lean)
+  Ivg.Gen.Tie.decodeMetadataChunk_code_tie,
+  Ivg.Gen.Tie.decode_code_tie,
+  Ivg.Gen.Tie.decode_Decode_code_tie,
+  Ivg.Gen.Tie.decodeViewBox_code_tie,
+  Ivg.Gen.Tie.errText_message,
+  Ivg.Gen.Tie.decodeError_Error_code_tie]
